@@ -4,6 +4,7 @@ CONSTANTS
   MaxLen = 6
   NameLen = 0
   PairLen = 0
+  LongLen = 0
   SecLen = 3
   ValLen = 4
   BatchLen = 3
